@@ -120,6 +120,7 @@ func c12(c *Ctx) {
 		return
 	}
 	nsites, nexempt := 0, 0
+	swallowers := map[*ssa.Function]bool{}
 	for _, fn := range c.G.Funcs() {
 		rel, ok := c.P.PkgOf(fn)
 		if !ok || !core.ReaderPkgs[rel] || fn.Synthetic != "" || c.P.IsGenerated(fn.Pos()) {
@@ -142,9 +143,11 @@ func c12(c *Ctx) {
 				name := core.FuncName(fn)
 				if fn.Signature.Recv() != nil && core.ImplementsMethodOf(fn, nodeIface) {
 					nexempt++
+					swallowers[fn] = true
 					r.ExemptOb("R12.1", key, pos, "enclosing method "+name+" has the error-less signature imposed by datamodel.Node; carries "+why)
 				} else if reason, ok := nativeNoErrorAPI[name]; ok {
 					nexempt++
+					swallowers[fn] = true
 					r.ExemptOb("R12.1", key, pos, reason+"; carries "+why)
 				} else {
 					r.Violate("R12.1", key, pos, fmt.Sprintf("%s has no error result, so the storage error carried by this call (%s) cannot be reported", name, why))
@@ -164,6 +167,29 @@ func c12(c *Ctx) {
 	}
 	r.Floor("R12.1", nsites, 25)
 	r.Floor("R12.1/exempt", nexempt, 4)
+	// R12.8: the exempted error-less accessors swallow load errors by signature; an operation that can report errors must
+	// not obtain its answer through one of them
+	r.Rule("R12.8", "no function with an error result in the reader packages calls one of the error-less accessors exempted under R12.1 (native Lookup / Next, Length, IsNull …): a load error would come back as nil / zero and be reported as not-found, empty or end of data")
+	n8 := 0
+	for _, fn := range c.G.Funcs() {
+		rel, ok := c.P.PkgOf(fn)
+		if !ok || !core.ReaderPkgs[rel] || fn.Synthetic != "" || c.P.IsGenerated(fn.Pos()) || core.ErrResultIndex(fn.Signature) < 0 {
+			continue
+		}
+		n8++
+		var bad []string
+		for _, call := range core.CallsIn(fn) {
+			for _, e := range c.G.Out[fn] {
+				if e.Site == call && e.Callee != nil && swallowers[e.Callee] {
+					bad = append(bad, fmt.Sprintf("call of %s at %s", core.FuncName(e.Callee), c.P.Pos(call.Pos())))
+				}
+			}
+		}
+		if len(bad) > 0 {
+			r.Violate("R12.8", core.FuncName(fn)+"/no-error-less-detour", c.P.Pos(fn.Pos()), "an error-reporting operation obtains its result through an accessor that cannot report a load error: "+uniqJoin(bad))
+		}
+	}
+	r.OK("R12.8", "reader-packages/no-error-less-detour", "-", fmt.Sprintf("%d error-returning functions call none of the %d error-less load-carrying accessors", n8, len(swallowers)))
 	c.checkIterProgress()
 }
 
